@@ -137,7 +137,7 @@ Qed.
 Print Assumptions C20_loads_place_current_content.
 
 (* the two loading models ask for exactly the detector's (rows, cols), their own file, position = (y, x) and align
-   parameters, accept smaller inputs, scale by time_step / time_scale (* multiplier for photons) and ADD the result
+   parameters, accept smaller inputs, scale by time_step / time_scale (times multiplier for photons) and ADD the result
    to their bucket — as their call sites say now *)
 Theorem C20_models_pass_arguments :
   forall rows cols file pos align,
